@@ -76,10 +76,14 @@ def gen_script(rng, nh=None):
     hist = []
     for _ in range(nh if nh is not None else rng.choice([1, 1, 2, 3])):
         hist.append({"kind": rng.choice(H_KINDS), "mode": rng.choice(["ack", "unack"]), "closure": rng.random() < 0.5, "size": rng.choice([0, 3, 9, 25]),
-                     "seed": rng.randrange(1 << 30), "at": rng.randrange(1, 9), "idw": rng.choice([2, 2, 1, 4]), "mib": gen_mib(rng)})
+                     "seed": rng.randrange(1 << 30), "at": rng.randrange(1, 9), "idw": rng.choice([2, 2, 1, 4]), "mib": gen_mib(rng),
+                     "pacing": rng.choice(PACINGS)})
     t = {"kind": rng.choice(T_KINDS), "mode": rng.choice(["ack", "unack"]), "closure": rng.random() < 0.5, "seed": rng.randrange(1 << 30), "at": rng.randrange(1, 7),
-         "idw": rng.choice([2, 2, 1, 4]), "mib": gen_mib(rng)}
+         "idw": rng.choice([2, 2, 1, 4]), "mib": gen_mib(rng), "pacing": rng.choice(PACINGS)}
     return {"base": base, "hist": hist, "t": t}
+
+
+PACINGS = [None, None, {"src_calls": 3}, {"src_calls": 6}, {"dst_calls": 3}, {"src_calls": 2, "dst_calls": 2}, {"dst_idle": 2}, {"src_idle": 2, "dst_calls": 2}]
 
 
 def gen_mib(rng):
@@ -230,7 +234,7 @@ def run_history(w: World, hist, stepper=None):
     notes = []
     for i, h in enumerate(hist):
         plan, actions, max_exp = setup_transaction(w, h, h["kind"], 100 + i)
-        r = Runner(w, plan=plan, actions=actions, max_expiries=max_exp, max_rounds=(h["at"] + 1 if h["kind"] == "reset_undrained" else 1500))
+        r = Runner(w, plan=plan, actions=actions, max_expiries=max_exp, max_rounds=(h["at"] + 1 if h["kind"] == "reset_undrained" else 1500), pacing=h.get("pacing"))
         try:
             w.put()
             if stepper is None:
@@ -259,7 +263,7 @@ def run_history(w: World, hist, stepper=None):
 def run_t(w: World, t, stepper=None):
     plan, actions, max_exp = setup_transaction(w, t, t["kind"], 7)
     mark = w.log.seq
-    r = Runner(w, plan=plan, actions=actions, max_expiries=max_exp, max_rounds=1500)
+    r = Runner(w, plan=plan, actions=actions, max_expiries=max_exp, max_rounds=1500, pacing=t.get("pacing"))
     try:
         w.put()
         if stepper is None:
@@ -415,7 +419,7 @@ def run_siblings_case(case):
                 # run history + T as one generator by re-implementing the loops with yields
                 for hi, h in enumerate(sc["hist"]):
                     plan, actions, max_exp = setup_transaction(w, h, h["kind"], 100 + hi)
-                    r = Runner(w, plan=plan, actions=actions, max_expiries=max_exp, max_rounds=(h["at"] + 1 if h["kind"] == "reset_undrained" else 1500))
+                    r = Runner(w, plan=plan, actions=actions, max_expiries=max_exp, max_rounds=(h["at"] + 1 if h["kind"] == "reset_undrained" else 1500), pacing=h.get("pacing"))
                     try:
                         w.put()
                         for _ in r.steps():
@@ -434,7 +438,7 @@ def run_siblings_case(case):
                     yield
                 plan, actions, max_exp = setup_transaction(w, sc["t"], sc["t"]["kind"], 7)
                 mark = w.log.seq
-                r = Runner(w, plan=plan, actions=actions, max_expiries=max_exp, max_rounds=1500)
+                r = Runner(w, plan=plan, actions=actions, max_expiries=max_exp, max_rounds=1500, pacing=sc["t"].get("pacing"))
                 try:
                     w.put()
                     for _ in r.steps():
